@@ -389,7 +389,40 @@ class Interp:
         raise NeedChoice(what)
 
     # -- name resolution ---------------------------------------------------
+    def module_env(self, mod: Module):
+        """The module's top-level statements executed once, in order (only in cache_globals mode): tables filled by
+        module-level loops, names rebound by later statements, loop variables left behind for late-binding closures."""
+        envs = self.__dict__.setdefault("_module_envs", {})
+        if mod.rel in envs:
+            return envs[mod.rel]
+        env = Env(mod, {})
+        envs[mod.rel] = env
+        compound = any(isinstance(st, (ast.For, ast.While, ast.If, ast.Try, ast.With, ast.AugAssign, ast.Delete)) or (
+            isinstance(st, ast.Assign) and any(not isinstance(t, ast.Name) for t in st.targets)) or (
+            isinstance(st, ast.Expr) and isinstance(st.value, ast.Call)) for st in mod.tree.body)
+        if not compound:
+            return env            # plain definitions: resolved lazily, one object per name
+        for st in mod.tree.body:
+            if isinstance(st, (ast.Import, ast.ImportFrom, ast.FunctionDef, ast.AsyncFunctionDef, ast.ClassDef)):
+                continue
+            if isinstance(st, ast.Expr) and isinstance(st.value, ast.Constant):
+                continue
+            if isinstance(st, ast.If) and "__name__" in norm(st.test):
+                continue
+            try:
+                self.exec_stmt(st, env)
+            except (Unsupported, NeedChoice, RaiseSig):
+                # the names this statement would bind stay resolvable the lazy way (and fail there if really needed)
+                for n_ in ast.walk(st):
+                    if isinstance(n_, ast.Name) and isinstance(n_.ctx, ast.Store):
+                        env.local.pop(n_.id, None)
+        return env
+
     def global_lookup(self, mod: Module, name: str):
+        if getattr(self, "cache_globals", False):
+            menv = self.module_env(mod)
+            if name in menv.local:
+                return menv.local[name]
         m2, node = self.src.resolve_name(mod, name)
         if isinstance(node, ast.ClassDef):
             return self.class_val(m2, node)
